@@ -325,7 +325,7 @@ pub fn workspace_cargo_toml(members: &[String]) -> String {
     // Two profiles, same seeds: `dev` is the checked one (overflow checks and debug assertions
     // on, no optimisation); `fast` turns both off and optimises, like a user's release build.
     format!(
-        "[workspace]\nresolver = \"2\"\nmembers = [{}]\n\n[profile.dev]\nopt-level = 0\ndebug = false\noverflow-checks = true\ndebug-assertions = true\nincremental = false\n\n[profile.fast]\ninherits = \"dev\"\nopt-level = 1\noverflow-checks = false\ndebug-assertions = false\n\n[profile.dev.build-override]\nopt-level = 0\ndebug = false\n\n[profile.fast.build-override]\nopt-level = 0\ndebug = false\n",
+        "[workspace]\nresolver = \"2\"\nmembers = [{}]\n\n[profile.dev]\nopt-level = 0\ndebug = false\noverflow-checks = true\ndebug-assertions = true\nincremental = false\n\n[profile.fast]\ninherits = \"dev\"\nopt-level = 1\noverflow-checks = false\ndebug-assertions = false\n\n# the simulator itself is optimised in both profiles (its overflow checks stay on in `dev`);\n# only the generated declarations, their glue and arbitrary-int are built the way a user's\n# debug build would build them\n[profile.dev.package.simcore]\nopt-level = 2\n\n[profile.dev.package.serde]\nopt-level = 2\n\n[profile.dev.package.serde_json]\nopt-level = 2\n\n[profile.dev.build-override]\nopt-level = 0\ndebug = false\n\n[profile.fast.build-override]\nopt-level = 0\ndebug = false\n",
         list.join(", ")
     )
 }
